@@ -65,7 +65,11 @@ def engine_recipes():
     locked = R.clone(mamdani)
     locked["name"] = "locked"
     locked["outputs"][0].update(lock_previous=True, default=0.5, lock_range=True)
-    return [mamdani, larsen, sugeno, tsukamoto, hybrid, locked]
+    first = R.clone(mamdani)  # a selecting activation method: per-rule state must not survive from step to step
+    first["name"] = "first"
+    first["blocks"][0]["activation"] = ["First", 1, 0.0]
+    first["blocks"][0]["rules"] = first["blocks"][0]["rules"][::-1]
+    return [mamdani, larsen, sugeno, tsukamoto, hybrid, locked, first]
 
 
 # ----------------------------------------------------------------------------------------------------------------------
@@ -185,7 +189,7 @@ def check_copy(acc: Acc, case, original, copy) -> bool:
 
 
 # ----------------------------------------------------------------------------------------------------------------------
-EDITS = ["edit-term", "edit-weight", "edit-operator", "edit-add-term"]
+EDITS = ["edit-term", "edit-weight", "edit-operator", "edit-add-term", "edit-flip-output"]
 TOGGLES = ["toggle-rule", "toggle-input", "toggle-block", "toggle-output"]
 OPS = ["in-r0", "in-r1", "in-rn", "in-batch", "process", "restart", "copy"] + EDITS + TOGGLES
 
@@ -200,6 +204,9 @@ def apply_edit(engine, edit: str) -> None:
         engine.rule_blocks[0].conjunction = fl.EinsteinProduct()
     elif edit == "edit-add-term":
         engine.output_variables[0].terms.append(fl.Constant("extra", 0.125))
+    elif edit == "edit-flip-output":  # a persistent flag change (applied twice = restored)
+        ov = engine.output_variables[-1]
+        ov.enabled = not ov.enabled
 
 
 def set_row(engine, name: str) -> None:
@@ -236,9 +243,13 @@ class World:
 
 def process_checked(acc: Acc, case, w: World, check: bool) -> bool:
     e = w.cur
-    e.process()
+    raised = None
+    try:
+        e.process()
+    except ValueError as ex:  # e.g. a vector-incapable activation method given a batch: the fresh engine must agree
+        raised = ex
     acc.transitions += 1
-    if not check or w.recipe["name"] == "locked":
+    if not check or (w.recipe["name"] == "locked" and raised is None):
         return True
     f = w.fresh(w.cur_edits)
     for a, b in zip(f.input_variables, e.input_variables):
@@ -250,8 +261,28 @@ def process_checked(acc: Acc, case, w: World, check: bool) -> bool:
         a.enabled = b.enabled
         for ra, rb in zip(a.rules, b.rules):
             ra.enabled = rb.enabled
-    f.process()
+    fresh_raised = None
+    try:
+        f.process()
+    except ValueError as ex:
+        fresh_raised = ex
     acc.traces += 1
+    if (raised is None) != (fresh_raised is None):
+        acc.violate("history-dependent-exception", {}, case, repr(fresh_raised), repr(raised),
+                    f"{w.recipe['name']}: process() raised {raised!r} after this history, a freshly built engine {fresh_raised!r}")
+        return False
+    if raised is not None:
+        acc.cls("both_reject")
+        return True
+    for be, bf in zip(e.rule_blocks, f.rule_blocks):
+        if not be.enabled:
+            continue
+        ge = [(fval(r.activation_degree), fval(r.triggered)) for r in be.rules]
+        gf = [(fval(r.activation_degree), fval(r.triggered)) for r in bf.rules]
+        if ge != gf:
+            acc.violate("history-dependent-rule-state", {"block": be.name}, case, gf, ge,
+                        f"{w.recipe['name']}: rule degrees/triggered flags {ge} after this history, a freshly built engine has {gf}")
+            return False
     for ov, fv in zip(e.output_variables, f.output_variables):
         if not ov.enabled:
             continue
@@ -289,15 +320,22 @@ def apply_op(acc: Acc, case, w: World, op: str, check: bool = True) -> bool:
             ok = check_copy(acc, case, w.cur, c)
         w.kept, w.kept_edits = w.cur, list(w.cur_edits)
         w.cur = c
+    elif op == "edit-flip-output":
+        apply_edit(w.cur, op)
+        if op in w.cur_edits:
+            w.cur_edits.remove(op)
+        else:
+            w.cur_edits.append(op)
     elif op in EDITS:
         if op not in w.cur_edits:
             apply_edit(w.cur, op)
             w.cur_edits.append(op)
     elif op in TOGGLES:
         target = w.toggle(op)
+        old = target.enabled
         target.enabled = False
         ok = process_checked(acc, case, w, check)
-        target.enabled = True
+        target.enabled = old
     if check and ok and kept_before is not None and op != "copy":
         if snap(w.kept) != kept_before:
             acc.violate("operation-leaks-into-other-engine", {"op": op.split("-")[0]}, case, "kept engine unchanged", "changed",
@@ -312,7 +350,7 @@ def world_digest(w: World):
 
 def plan(tier: str, seed: int):
     # one shard per (engine, first operation): the BFS below the first operation is independent
-    return [(e, first) for e in range(6) for first in OPS]
+    return [(e, first) for e in range(7) for first in OPS]
 
 
 def run_shard(tier: str, seed: int, shard):
@@ -374,8 +412,8 @@ def summarize(tier: str, seed: int, merged: dict) -> dict:
     depth = 4 if tier == "quick" else 5
     return {
         "rule": (
-            f"6 engines (Mamdani, Larsen with chained blocks, Takagi-Sugeno with Linear and a Function reading an input and an "
-            f"earlier output, Tsukamoto, hybrid, lock-previous) x all histories of length <= {depth} over {len(OPS)} operations "
+            f"7 engines (Mamdani, Larsen with chained blocks, Takagi-Sugeno with Linear and a Function reading an input and an "
+            f"earlier output, Tsukamoto, hybrid, lock-previous, First-activated) x all histories of length <= {depth} over {len(OPS)} operations "
             f"{OPS}, breadth-first with states merged on the structural digest of all live engines; states = distinct digests, "
             "transitions = operations executed with oracles on, traces = fresh-engine comparisons; non-trivial = process / "
             "restart / copy / toggle executed after at least one earlier operation"
